@@ -259,7 +259,7 @@ def run(ctx):
         if not any(has_suffix(lb2.loop_body(h, tl)) for h, tl in lb2.loops().items()):
             r6.ok("one-split", "no loop over split points: nothing can be carried between them")
         elif not carried:
-            r6.ok("one-split", "no string is appended to inside the split-point loop")
+            r6.ok("one-split", "no append to a string inside the split-point loop can reach another iteration")
         for n_, (L, name, status, why, at) in enumerate(carried):
             key = "one-split@%s#%d" % (short, n_)
             if status == "carried":
